@@ -159,6 +159,10 @@ Qed.
 Lemma saving_file : forall pre, saving_after pre <> None <-> file_after pre <> None.
 Proof. intro pre. unfold saving_after. destruct (file_after pre); cbn; split; congruence. Qed.
 
+Ltac empty_case :=
+  split; [constructor|split; [|intros _; reflexivity]];
+  let i := fresh "i" in intro i; split; [intros []|intro H].
+
 Lemma inv_step : forall infos pre s e,
   Inv infos pre s -> e <> Done -> (rotate_open_first = true \/ no_bad_switch e) ->
   Inv infos (pre ++ [e]) (fst (fst (step infos s e))).
@@ -198,11 +202,9 @@ Proof.
         -- rewrite Hact. intro H. apply open_snoc in H.
            destruct H as [(h' & Heq & Hs' & _)|[H _]]; [congruence|assumption].
         -- discriminate.
-    + rewrite (Hnone eq_refl) in *. repeat split; try constructor; try tauto.
-      * intros [].
-      * intro H. apply open_snoc in H. destruct H as [(h' & _ & _ & Hs)|[H _]].
-        -- apply saving_file in Hs. congruence.
-        -- apply Hact in H. destruct H.
+    + rewrite (Hnone eq_refl) in *. empty_case. apply open_snoc in H. destruct H as [(h' & _ & _ & Hs)|[H _]].
+      * apply saving_file in Hs. congruence.
+      * apply Hact in H. destruct H.
   - (* an option change *)
     cbn [step].
     assert (Hok : forall a p, file_after pre = Some (a, p) -> p =? bad_path = false)
@@ -220,27 +222,23 @@ Proof.
         -- repeat split; try assumption; try discriminate.
            ++ intro H. apply Hop. split; [apply Hact; assumption|reflexivity].
            ++ intro H. apply Hop in H. apply Hact. tauto.
-        -- repeat split; try constructor; try tauto; try (intros []).
-           intro H. apply Hop in H. destruct H as [_ H]. cbn in H.
+        -- empty_case. apply Hop in H. destruct H as [_ H]. cbn in H.
            unfold accepted in Ea. cbn in Ea. rewrite H in Ea. discriminate.
       * eexists. split; [reflexivity|]. destruct v as [[a p]|].
         -- repeat split; try assumption; try discriminate.
            ++ intro H. apply Hop. split; [apply Hact; assumption|reflexivity].
            ++ intro H. apply Hop in H. apply Hact. tauto.
-        -- repeat split; try constructor; try tauto; try (intros []).
-           intro H. apply Hop in H. destruct H as [_ H]. cbn in H. discriminate.
+        -- empty_case. apply Hop in H. destruct H as [_ H]. cbn in H. discriminate.
       * eexists. split; [reflexivity|]. destruct (file_after pre) as [[a p]|] eqn:Ef.
         -- repeat split; try assumption; try discriminate.
            ++ intro H. apply Hop. split; [apply Hact; assumption|reflexivity].
            ++ intro H. apply Hop in H. apply Hact. tauto.
-        -- repeat split; try constructor; try tauto; try (intros []).
-           intro H. apply Hop in H. destruct H as [H _]. apply Hact in H. rewrite (Hnone eq_refl) in H. destruct H.
+        -- empty_case. apply Hop in H. destruct H as [H _]. apply Hact in H. rewrite (Hnone eq_refl) in H. destruct H.
       * eexists. split; [reflexivity|]. destruct (file_after pre) as [[a p]|] eqn:Ef.
         -- repeat split; try assumption; try discriminate.
            ++ intro H. apply Hop. split; [apply Hact; assumption|reflexivity].
            ++ intro H. apply Hop in H. apply Hact. tauto.
-        -- repeat split; try constructor; try tauto; try (intros []).
-           intro H. apply Hop in H. destruct H as [H _]. apply Hact in H. rewrite (Hnone eq_refl) in H. destruct H.
+        -- empty_case. apply Hop in H. destruct H as [H _]. apply Hact in H. rewrite (Hnone eq_refl) in H. destruct H.
     + assert (Hst : stops (Configure uf ufl) = false).
       { destruct uf as [[v|]|]; try reflexivity. cbn. unfold accepted in Ea. cbn in Ea.
         destruct (filter_bad ufl); [reflexivity|discriminate]. }
